@@ -138,7 +138,7 @@ mac = st.one_of(distinct_bytes(6), distinct_bytes(6), st.lists(st.integers(0, 25
 
 def names_bytes():
     return gen.names(1, 32).filter(lambda s: 1 <= len(s.encode("utf-8")) <= 32 and "\x00" not in s) | st.sampled_from(
-        ["x", "y" * 32, "בית", "é" * 16, "😀" * 8, "Switcher Boiler CF8B"])
+        ["x", "y" * 32, "בית", "é" * 16, "😀" * 8, "Switcher Boiler CF8B", "\ufeffBoiler", "\ufeff", "Cafe\u0301", " lead", "trail "])
 
 
 secs = st.one_of(st.integers(0, 86399), st.sampled_from([0, 1, 59, 60, 3599, 3600, 65535, 65536, 86399]))
